@@ -179,7 +179,7 @@ pub fn worker(args: &Args, w: &Worker) -> i32 {
     w.count("walk_nodes", out.stats.nodes);
     w.count("walk_transitions", out.stats.transitions);
 
-    // (d) all command sequences of length <= 4 over six commands against the session model
+    // (d) all command sequences of length <= 4 over eight commands (two of them unparseable) against the session model
     if w.shard == 0 {
         let f = "r3k2r/p1ppqpb1/bn2pnp1/3PN3/1p2P3/2N2Q1p/PPPBBPPP/R3K2R w KQkq - 0 1";
         let cmds: Vec<String> = vec![
@@ -189,6 +189,9 @@ pub fn worker(args: &Args, w: &Worker) -> i32 {
             "position fen 4k3/8/8/2pPp3/8/8/8/4K3 w - c6 0 2 moves d5c6".into(),
             "ucinewgame".into(),
             "isready".into(),
+            // lines the parser rejects: they must leave no trace in the session
+            "position".into(),
+            "debug on".into(),
         ];
         let mut seqs: Vec<Vec<usize>> = vec![vec![]];
         let mut frontier = seqs.clone();
